@@ -352,10 +352,11 @@ def cpptable():
     return _target('cpptable', mk)
 
 
-def cppmon(config, flavour, compiler=None):
-    """compiler: the header-only wrappers are compiled by the USER's compiler: 'clang++' gives the second one installed here"""
+def cppmon(config, flavour, compiler=None, user_flags=()):
+    """compiler: the header-only wrappers are compiled by the USER's compiler: 'clang++' gives the second one installed here;
+    user_flags: and with the user's flags (-DNDEBUG of a release build, -funsigned-char of the arm / ppc ABI, another -std)"""
     t = cpptable()
-    return harness(config, flavour, 'cppmon', extra_flags=['-std=c++11', '-I' + t, '-Wno-deprecated-declarations'], cxx=True, compiler=compiler)
+    return harness(config, flavour, 'cppmon', extra_flags=['-std=c++11', '-I' + t, '-Wno-deprecated-declarations'] + list(user_flags), cxx=True, compiler=compiler)
 
 
 def java_bundle(config):
@@ -446,20 +447,54 @@ PROJECT_BUILDS = ('meson', 'meson-release', 'meson-uchar')          # shared lib
 EXEC_BUILDS = PROJECT_BUILDS + ('meson-static',)                       # for the executor (execlib.Lib)
 
 
+def stale_data(config):
+    """a complete data directory as a user of an OLDER installation may still have it (and point XRAYLIB_DIR at it): every file of data/ with the
+    third decimal of every number raised by one - parsable by the generator, different everywhere.  returns the directory that holds data/"""
+    def mk(d):
+        dd = os.path.join(d, 'data')
+        os.makedirs(dd)
+        n = 0
+        for f in sorted(os.listdir(os.path.join(REPO, 'data'))):
+            q = os.path.join(REPO, 'data', f)
+            if not os.path.isfile(q):
+                continue
+            if f == 'kissel_pe.dat' and config == 'kissel':
+                q = kissel_dat()
+            t = open(q, encoding='latin1').read()
+            t, k = re.subn(r'(?<![\w.])(\d*\.\d\d)(\d)(\d*(?:[eE][-+]?\d+)?)(?![\w.])', lambda m: m.group(1) + str((int(m.group(2)) + 1) % 10) + m.group(3), t)
+            n += k
+            open(os.path.join(dd, f), 'w', encoding='latin1').write(t)
+        if n < 100000:
+            raise BuildError('only %d numbers of the data files could be made stale' % n)
+    return _target('stale-data-' + config, mk)
+
+
 def meson_lib(config, dirty=False, sanitize=None, variant=None):
     """the library exactly as the project's own build system makes it (its compiler arguments, its visibility settings, its generator run):
     a copy of the working tree (without .git) is built with meson in the cache; returns dict(dir, so, incs).  The hook guard is NOT defined.
     dirty: the copy additionally holds what an earlier in-tree (autotools) build leaves behind and .gitignore hides - a stale
-    src/xrayglob_inline.c generated from OTHER data, stale objects - which the build must not pick up.
+    src/xrayglob_inline.c generated from OTHER data, stale objects - which the build must not pick up - and the build runs in a hostile
+    ENVIRONMENT: XRAYLIB_DIR (the data-directory variable of xraylib 2.x) pointing at a stale data directory, MALLOC_PERTURB_=165 (freed and fresh
+    heap memory filled with a byte pattern: a generator table that is not really initialised shows).  dirty='crlf': the copy has CR LF line
+    ends in data/* (a checkout with autocrlf built under WSL or in a container).
     sanitize='thread': the same project build with meson's own -Db_sanitize=thread (the project's flags and optimisation level, instrumented)"""
-    stale = stale_inline(config) if dirty else None
+    stale = stale_inline(config) if dirty is True else None
+    benv = None
+    if dirty is True:
+        benv = dict(os.environ, XRAYLIB_DIR=stale_data(config), MALLOC_PERTURB_='165')
 
     def mk(d):
         src = os.path.join(d, 'tree')
         _run(['rsync', '-a', '--exclude=.git', '--exclude=_build', '--exclude=_b', REPO + '/', src + '/'])
         if config == 'kissel':
             shutil.copyfile(kissel_dat(), os.path.join(src, 'data', 'kissel_pe.dat'))
-        if dirty:
+        if dirty == 'crlf':
+            for f in os.listdir(os.path.join(src, 'data')):
+                q = os.path.join(src, 'data', f)
+                if os.path.isfile(q):
+                    b_ = open(q, 'rb').read()
+                    open(q, 'wb').write(b_.replace(b'\r\n', b'\n').replace(b'\n', b'\r\n'))
+        if dirty is True:
             shutil.copyfile(stale, os.path.join(src, 'src', 'xrayglob_inline.c'))
             shutil.copyfile(stale, os.path.join(src, 'xrayglob_inline.c'))
             for o in ('src/xrayglob_inline.o', 'src/xrayglob_inline.lo', 'src/.libs/xrayglob_inline.o'):
@@ -467,11 +502,11 @@ def meson_lib(config, dirty=False, sanitize=None, variant=None):
                 open(os.path.join(src, o), 'wb').write(b'\x7fELF stale object of an earlier build\n')
         b = os.path.join(d, 'b')
         _run(['meson', 'setup', b, src, '-Dpython-bindings=disabled', '-Dpython-numpy-bindings=disabled', '-Dfortran-bindings=disabled'] +
-             (['-Db_sanitize=' + sanitize, '-Db_lundef=false'] if sanitize else []) + MESON_VARIANTS[variant], timeout=1800)
-        _run(['meson', 'compile', '-C', b, 'xrl'], timeout=3600)
+             (['-Db_sanitize=' + sanitize, '-Db_lundef=false'] if sanitize else []) + MESON_VARIANTS[variant], timeout=1800, env=benv)
+        _run(['meson', 'compile', '-C', b, 'xrl'], timeout=3600, env=benv)
         if not os.path.exists(os.path.join(b, 'src', 'libxrl.a' if variant == 'static' else 'libxrl.so')):
             raise BuildError('meson did not produce src/libxrl.%s' % ('a' if variant == 'static' else 'so'))
-    d = _target('lib-%s-meson%s%s%s' % (config, '-dirty' if dirty else '', '-' + sanitize if sanitize else '', '-' + variant if variant else ''), mk)
+    d = _target('lib-%s-meson%s%s%s' % (config, ('-dirty' if dirty is True else '-' + dirty) if dirty else '', '-' + sanitize if sanitize else '', '-' + variant if variant else ''), mk)
     return dict(dir=os.path.join(d, 'b', 'src'), so=os.path.join(d, 'b', 'src', 'libxrl.so'), a=os.path.join(d, 'b', 'src', 'libxrl.a'), cfgdir=os.path.join(d, 'b'))
 
 
